@@ -68,7 +68,7 @@ fn extract_item(file: &syn::File, ip: &Value, rules: &[matcher::Rule], plan: &Va
     let opts = &ip["opts"];
     let r = match kind {
         "fn" => rewrite::extract_fn(file, name, opts, rules, plan),
-        "struct" | "enum" | "const" | "type" | "macro_expand" => rewrite::extract_other(file, kind, name, opts, rules, plan),
+        "struct" | "enum" | "const" | "type" | "trait" | "macro_expand" => rewrite::extract_other(file, kind, name, opts, rules, plan),
         _ => Err(format!("unknown item kind {}", kind)),
     };
     match r {
